@@ -94,6 +94,12 @@ type Shape struct {
 	// schema xpaths are unaffected.
 	XMLNS   int  `json:"xml_ns,omitempty"`
 	FLRows  int  `json:"fl_rows,omitempty"`
+	// FLSpaceMark (old fixed-length, by_rows layout): the first row of a record is recognised by "A" or a blank in
+	// column 1 (line_pattern "^[A ]"), so a record whose first-row values are all empty has a white-space-only first row.
+	FLSpaceMark bool `json:"fl_space_mark,omitempty"`
+	// HostZone adds output fields computed by the date/time functions called WITHOUT a time zone argument (set by C15
+	// only, whose fresh-process run has another local time zone than this process).
+	HostZone bool `json:"host_zone,omitempty"`
 	FLBlank bool `json:"fl_blank,omitempty"`
 }
 
@@ -113,6 +119,9 @@ type Rec struct {
 	// RawLine, when non-empty, replaces the rendered record by this text (plus line end) in the line-oriented
 	// formats: a malformed row.
 	RawLine string `json:"raw_line,omitempty"`
+	// BlankA (old fixed-length, by_rows layout with Shape.FLSpaceMark): the first row of the record is rendered with a
+	// blank in place of the row marker; its values are all empty, so the row consists of white space only.
+	BlankA bool `json:"blank_a,omitempty"`
 }
 
 // BoomToken as value of c0 makes the javascript transform flavour (Xform 2) throw.
@@ -170,6 +179,9 @@ func DrawShape(t *rapid.T, o ShapeOpts) Shape {
 		}
 	case "fixed-length":
 		s.Widths = drawWidths(t, s.NCols, "w")
+		if s.Variant == 1 {
+			s.FLSpaceMark = rapid.Bool().Draw(t, "flspacemark")
+		}
 	case "fixedlength2":
 		s.Widths = drawWidths(t, s.NCols, "w")
 		if s.Variant == 1 {
@@ -365,6 +377,13 @@ func DrawRec(t *rapid.T, s Shape, label string, kind int, o ValueOpts) Rec {
 			r.Vals[0] = s.SkipToken()
 		} else if strings.HasPrefix(r.Vals[0], s.SkipToken()) {
 			r.Vals[0] = "k"
+		}
+	}
+	if s.Format == "fixed-length" && s.Variant == 1 && s.FLSpaceMark && kind == 0 && (s.IntCol < 0 || s.IntCol%2 == 1) &&
+		rapid.Bool().Draw(t, label+"blankA") {
+		r.BlankA = true
+		for i := 0; i < len(r.Vals); i += 2 {
+			r.Vals[i] = ""
 		}
 	}
 	if s.HasSubs() {
@@ -602,6 +621,14 @@ func (s Shape) transformDecls() obj {
 		decls["tpl"] = obj{"object": obj{"first": obj{"xpath": "c0"}, "js": obj{"custom_func": obj{"name": "javascript", "args": []interface{}{
 			obj{"const": "v.length"}, obj{"const": "v"}, obj{"xpath": last, "no_trim": true}}}}}}
 	}
+	if s.HostZone {
+		// date/time functions called without any time zone argument: the documented results name no zone of the host
+		k := func(v string) obj { return obj{"const": v} }
+		fields["hz1"] = obj{"custom_func": obj{"name": "epochToDateTimeRFC3339", "args": []interface{}{k("1234567890"), k("SECOND")}}}
+		fields["hz2"] = obj{"custom_func": obj{"name": "dateTimeToRFC3339", "args": []interface{}{k("2020-01-02 03:04:05"), k(""), k("")}}}
+		fields["hz3"] = obj{"custom_func": obj{"name": "dateTimeToEpoch", "args": []interface{}{k("2020-07-02 03:04:05"), k(""), k("SECOND")}}}
+		fields["hz4"] = obj{"custom_func": obj{"name": "dateTimeToRFC3339", "args": []interface{}{k("2020-07-02T03:04:05Z"), k(""), k("")}}}
+	}
 	fo := obj{"object": fields}
 	if xp := s.finalOutputXPath(); xp != "" {
 		fo["xpath"] = xp
@@ -680,7 +707,9 @@ func (s Shape) fileDecl() obj {
 			for i := 0; i < s.NCols; i++ {
 				c := obj{"name": colName(i), "start_pos": pos, "length": s.Widths[i]}
 				if s.Variant == 1 {
-					if i%2 == 0 {
+					if i%2 == 0 && s.FLSpaceMark {
+						c["line_pattern"] = "^[A ]"
+					} else if i%2 == 0 {
 						c["line_pattern"] = "^A"
 					} else {
 						c["line_pattern"] = "^B"
@@ -1021,6 +1050,9 @@ func (s Shape) RenderParts(recs []Rec) (pro string, parts []string, epi string) 
 			case s.Variant == 1 && s.Format == "fixed-length":
 				// line A carries even columns, line B odd columns, each at its declared position
 				la, lb := []rune("A"), []rune("B")
+				if r.BlankA && s.FLSpaceMark {
+					la = []rune(" ")
+				}
 				pos := 1
 				for i, v := range r.Vals {
 					tgt := &la
